@@ -173,6 +173,23 @@ fn main() {
       if exited_ok && done {
         break;
       }
+      // a memory checker wrapped around the worker (valgrind --error-exitcode=N)
+      // reports through the exit status of an otherwise complete run
+      if done && libc::WIFEXITED(status) {
+        if let Some(code) = args.get("sanitizer-exit").and_then(|s| s.parse::<i32>().ok()) {
+          if libc::WEXITSTATUS(status) == code {
+            let err_tail = read_tail(&stderr_path, 1500);
+            let sig = format!("{}:host:memory-checker-reported-errors", monitor.name.to_uppercase());
+            rt::shared_add(shared, &format!("~sig:{}", sig), 1);
+            crashes.push(format!(
+              "{{\"t\":\"violation\",\"signature\":\"{}\",\"detail\":\"{}\"}}",
+              rt::json_escape(&sig),
+              rt::json_escape(&format!("the memory checker reported errors during this worker's run: {}", err_tail.trim()))
+            ));
+            break;
+          }
+        }
+      }
       // the child died
       let status_text = if libc::WIFSIGNALED(status) {
         format!("signal {}", libc::WTERMSIG(status))
